@@ -4,6 +4,7 @@ Driver for C10.  One request per line, `k=v` fields separated by single spaces:
   op=valid T=<xsd type> S=<…>
   op=canon T=<integer type|decimal|boolean> (I=<int> | S=<lexical form> | B=<0|1>)
   op=greg K=<time|gDay|gMonth|gMonthDay> S=<cps>   op=lang S=<cps>   op=name K=<NCName|Name|NMTOKEN|QName> S=<cps>
+  op=date K=<date|dateTime|dateTimeStamp|gYear|gYearMonth> V=<10|11> S=<cps>   op=str K=<string|untypedAtomic|normalizedString|token> S=<cps>
   op=tz S=<timezone text>   op=tzcanon M=<minutes>   op=dur K=<duration|yearMonthDuration|dayTimeDuration> S=<cps>
   op=hexenc|b64enc Y=<octets, comma separated, `_` = empty>
   op=hex2b64|b642hex S=<stored value>
@@ -24,6 +25,8 @@ import EPV.Spec.XSDLexical
 import EPV.Lemmas.LexicalRepr
 import EPV.Lemmas.LexicalGreg
 import EPV.Gen.C10Tables
+import EPV.Model.LexicalDate
+import EPV.Spec.XSDDateLex
 open EPV.Proto EPV
 
 def parseCPs (s : String) : Option (List Char) :=
@@ -360,6 +363,47 @@ def answer (line : String) : String :=
         | [] => true
         | x :: r => (Lex.inRanges first x == XSD.inSet sf x) && r.all fun y => Lex.inRanges later y == XSD.inSet sl y
       out m m sp (flags s ++ (if alike then "" else "n"))
+    | none => "bad-string"
+  else if op == "str" then
+    match parseCPs (field fs "S") with
+    | some s =>
+      let kname := field fs "K"
+      let m := if kname == "token" then (match Lex.tokenCtor s with | some v => "ok:" ++ showCPs v | none => "ERR:V")
+        else if kname == "normalizedString" then "ok:" ++ showCPs (Lex.normStrCtor s)
+        else "ok:" ++ showCPs s
+      let sp := if kname == "token" then "ok:" ++ showCPs (XSD.wsCollapse s)
+        else if kname == "normalizedString" then "ok:" ++ showCPs (XSD.wsReplace s)
+        else "ok:" ++ showCPs s
+      out m m sp (flags s)
+    | none => "bad-string"
+  else if op == "date" then
+    match parseCPs (field fs "S") with
+    | some s =>
+      let kname := field fs "K"
+      let v11 := field fs "V" != "10"
+      let r : Except Cal.Err Cal.DT :=
+        if kname == "date" then Cal.dateOfLex v11 s
+        else if kname == "dateTime" then Cal.dateTimeOfLex v11 s
+        else if kname == "dateTimeStamp" then Lex.dateTimeStampOfLex s
+        else if kname == "gYear" then Cal.gOfLex .gYear v11 s
+        else Cal.gOfLex .gYearMonth v11 s
+      let showTz (z : Option Int) : String := match z with | some m => toString m | none => "n"
+      let m := match r with
+        | .ok v => s!"ok:{v.year}:{v.month}:{v.day}:{v.us}:{showTz v.tz}"
+        | .error .value => "ERR:V"
+        | .error .overflow => "ERR:O"
+        | .error _ => "ERR:?"
+      let t := Lex.pyStrip s
+      let f? : Option XSD.DateFields :=
+        if kname == "date" then XSD.dateLex v11 t
+        else if kname == "dateTime" then XSD.dateTimeLex v11 t
+        else if kname == "dateTimeStamp" then XSD.dateTimeStampLex true t
+        else if kname == "gYear" then XSD.gYearLex v11 t
+        else XSD.gYearMonthLex v11 t
+      let sp := match f? with
+        | some f => s!"ok:{f.year}:{f.month}:{f.day}:{f.hour}:{f.minute}:{f.second}:{XSD.microTrunc f.frac}:{showTz f.tz}"
+        | none => "ERR:V"
+      out m m sp (flags s)
     | none => "bad-string"
   else if op == "greg" then
     match parseCPs (field fs "S") with
